@@ -1125,6 +1125,22 @@ def iter_next(it, cur, term, caller, depth, back=False):
         return cur, item
     if k == "user":
         cell, nb = cur.a
+        if back:
+            # reverse iteration of a user-defined iterator: its own DoubleEndedIterator::next_back
+            ist = nb.get("impl_self", "")
+            nbb = None
+            if it.mono:
+                for tr_ in ("std::iter::DoubleEndedIterator", "core::iter::DoubleEndedIterator"):
+                    nbb = nbb or it.facts.insts.get("<%s as %s>::next_back" % (ist, tr_))
+            if nbb is None:
+                for b_ in it.facts.fns.values():
+                    if b_["path"].endswith("::next_back") and b_.get("impl_trait", "").endswith("DoubleEndedIterator") and \
+                            (b_.get("impl_self", "") == ist or b_.get("impl_self", "").split("<")[0] == ist.split("<")[0]):
+                        nbb = b_
+                        break
+            if nbb is None:
+                raise Unsupported("next_back of the user-defined iterator %s" % ist)
+            nb = nbb
         item = it.call_body(nb, [Ref(cell)], depth + 1)
         if not (isinstance(item, Adt) and item.variant is not None):
             raise Undecided("user iterator returned %r" % (item,))
